@@ -130,10 +130,15 @@ def random_plan(rng, n_nodes, seq_ratio=(1, 4), wmax=8, kinds=None, allow_feedba
     for dm in plan['domains'][1:]:
         if dm['gated']:
             dm['enable'] = pick(n_nodes, 1) if rng.chance(3, 4) else pick(n_nodes)
+    if n_domains > 0:
+        # a driver placed directly on a sequential LEAF (nearest-ancestor-or-self rule)
+        for nd in nodes:
+            if nd['kind'] in SEQ and rng.chance(1, 5):
+                nd['own_driver'] = pick(n_nodes, 1) if rng.chance(3, 4) else pick(n_nodes)
     return plan
 
 
-def build(plan, inst_order=None, wire_order=None, sysname=None, into=None, leaf_parent=None):
+def build(plan, inst_order=None, wire_order=None, sysname=None, into=None, leaf_parent=None, pause_after=None, on_pause=None):
     """instantiates the plan with the real py4hw constructors.
        returns (sys, inputs: [Wire], outs: {(j,k): Wire}, leaves: {j: obj})"""
     import py4hw
@@ -174,7 +179,9 @@ def build(plan, inst_order=None, wire_order=None, sysname=None, into=None, leaf_
         if dm['gated']:
             c.clockDriver = py4hw.ClockDriver(f'gclk{di}', base=top.clockDriver, enable=W[tuple(dm['enable'])])
         conts.append(c)
-    for j in order:
+    for pos_, j in enumerate(order):
+        if pause_after is not None and pos_ == pause_after and on_pause is not None:
+            on_pause(top)          # e.g. create the simulator on the partially built design (late additions follow)
         nd = nodes[j]
         k, nm, p = nd['kind'], nd['name'], nd['params']
         sysobj = conts[nd.get('dom', 0)]
@@ -227,6 +234,8 @@ def build(plan, inst_order=None, wire_order=None, sysname=None, into=None, leaf_
             leaves[j] = C.AutoReset(sysobj, nm, o[0])
         else:
             raise Exception('unknown kind ' + k)
+        if nd.get('own_driver') is not None:
+            leaves[j].clockDriver = py4hw.ClockDriver(f'lclk{j}', base=top.clockDriver, enable=W[tuple(nd['own_driver'])])
     inputs = [W[('in', i)] for i in range(len(plan['inputs']))]
     sysobj = top
     sysobj._containers = conts
@@ -251,4 +260,25 @@ def random_ops(rng, inputs, n_ops, extreme=False):
 
 def plan_summary(plan):
     return {'inputs': plan['inputs'], 'domains': plan.get('domains'),
-            'nodes': [(n['kind'], n['ins'], n['outw'], n['params'], n.get('dom', 0)) for n in plan['nodes']]}
+            'nodes': [(n['kind'], n['ins'], n['outw'], n['params'], n.get('dom', 0), n.get('own_driver')) for n in plan['nodes']]}
+
+
+def reg_chain_plan(rng, wmax=8):
+    """register chains / rings with (partly shared, partly private) 1-bit resets and enables driven from inputs, nonzero reset
+    values, a little combinational logic in between: the 'register chains, feedback' family of C05/C09"""
+    w = rng.randint(1, wmax)
+    plan = {'inputs': [('d', w), ('r0', 1), ('r1', 1), ('e0', 1), ('e1', 1)], 'nodes': [], 'domains': [{'parent': None, 'gated': False}]}
+    n = rng.randint(2, 7)
+    ring = rng.chance(1, 3)
+    for j in range(n):
+        src = ('in', 0) if j == 0 else ('node', j - 1, 0)
+        if j == 0 and ring:
+            src = ('node', n - 1, 0)
+        has_r, has_e = rng.chance(2, 3), rng.chance(1, 2)
+        ins = [src] + ([('in', rng.choice([3, 4]))] if has_e else []) + ([('in', rng.choice([1, 2]))] if has_r else [])
+        plan['nodes'].append({'kind': 'Reg', 'name': f'n{j}', 'ins': ins, 'outw': [w], 'dom': 0,
+                              'params': dict(has_e=int(has_e), has_r=int(has_r),
+                                             reset_value=(None if rng.chance(1, 4) else rng.randint(0, (1 << w) - 1)))})
+    # observers
+    plan['nodes'].append({'kind': 'Not', 'name': f'n{n}', 'ins': [('node', rng.randint(0, n - 1), 0)], 'outw': [w], 'params': {}, 'dom': 0})
+    return plan
